@@ -6,6 +6,9 @@ A *spec* is plain JSON data describing one stored tensor:
   ali : {"dtype": str, "vals": [int...], "rank": 1|0|2}
   ref : {"dtype": str, "dim": 1|2|0|3, "width": int, "rows": [[tok, start, end]...]}
 
+Every spec may carry "layout": one of LAYOUTS - the memory layout of the tensor that is saved (``torch.save``
+keeps the view structure, so the library loads a tensor with the same strides / storage offset).
+
 A *stored tensor* (what is on disk) is {"dtype": "torch.int64", "shape": [...], "data": nested list}.
 Oracles only ever see stored tensors.
 """
@@ -48,6 +51,51 @@ def stored_to_tensor(s: dict) -> torch.Tensor:
     return torch.tensor(s["data"], dtype=dt).reshape(s["shape"])
 
 
+LAYOUTS = ["own", "offset", "colslice", "transposed", "strided"]
+
+
+def with_layout(t: torch.Tensor, layout) -> torch.Tensor:
+    """A tensor equal to ``t`` (shape, dtype, values) with the requested memory layout:
+
+    own        - its own contiguous storage (``t`` itself)
+    offset     - a row slice of a larger tensor: contiguous, non-zero storage offset
+    colslice   - the last axis cut out of a wider tensor (1-D: one column of a matrix): non-contiguous, offset
+    transposed - axes 0 and 1 swapped in storage (1-D: like colslice): non-contiguous, offset 0
+    strided    - every other row of a larger tensor: non-contiguous, offset
+
+    The cells of the larger tensor outside the view hold garbage that no valid tensor contains (NaN for floating
+    point, -12345 / 251 / True otherwise), so that reading the storage with the wrong offset or strides shows.
+    Scalars are returned unchanged."""
+    if layout in (None, "own") or t.dim() == 0:
+        return t
+    if t.dtype.is_floating_point:
+        junk = float("nan")
+    elif t.dtype == torch.bool:
+        junk = True
+    elif t.dtype == torch.uint8:
+        junk = 251
+    else:
+        junk = -12345
+    n = t.size(0)
+    rest = tuple(t.shape[1:])
+    if layout == "offset":
+        v = t.new_full((n + 3,) + rest, junk)[2:2 + n]
+    elif layout == "strided":
+        v = t.new_full((2 * n + 1,) + rest, junk)[1::2]
+    elif layout == "colslice" or (layout == "transposed" and t.dim() == 1):
+        if t.dim() == 1:
+            v = t.new_full((n + 1, 3), junk)[1:, 1]
+        else:
+            v = t.new_full(tuple(t.shape[:-1]) + (t.size(-1) + 2,), junk)[..., 1:-1]
+    elif layout == "transposed":
+        v = t.new_full((t.size(1), n) + tuple(t.shape[2:]), junk).transpose(0, 1)
+    else:
+        raise ValueError("unknown layout %r" % (layout,))
+    assert v.shape == t.shape, (layout, v.shape, t.shape)
+    v.copy_(t)
+    return v
+
+
 def feat_tensor(spec) -> torch.Tensor:
     T, F, rank = spec["T"], spec["F"], spec.get("rank", 2)
     base = spec.get("base", 0)
@@ -57,7 +105,7 @@ def feat_tensor(spec) -> torch.Tensor:
         t = t[:, 0] if F else t.sum(1)
     elif rank == 3:
         t = t.unsqueeze(-1)
-    return t.to(DTYPES[spec["dtype"]])
+    return with_layout(t.to(DTYPES[spec["dtype"]]), spec.get("layout"))
 
 
 def ali_tensor(spec) -> torch.Tensor:
@@ -67,7 +115,7 @@ def ali_tensor(spec) -> torch.Tensor:
         t = t[0] if len(vals) else torch.tensor(0)
     elif rank == 2:
         t = t.unsqueeze(-1)
-    return t.to(DTYPES[spec["dtype"]])
+    return with_layout(t.to(DTYPES[spec["dtype"]]), spec.get("layout"))
 
 
 def ref_tensor(spec) -> torch.Tensor:
@@ -84,7 +132,7 @@ def ref_tensor(spec) -> torch.Tensor:
             t = torch.cat([t, torch.full((len(rows), width - 3), -1, dtype=torch.int64)], 1)
         if dim == 3:
             t = t.unsqueeze(-1)
-    return t.to(DTYPES[spec["dtype"]])
+    return with_layout(t.to(DTYPES[spec["dtype"]]), spec.get("layout"))
 
 
 def _scratch_base():
